@@ -219,6 +219,14 @@ class Effects:
         key = e.data.get('callee', '')
         if key.startswith('ext:'):
             self._rng_event(func, s, p, e, key[4:])
+            # library routines told to work in place on their input: overwrite_x=True (scipy.fft, scipy.linalg),
+            # overwrite_a / overwrite_b / overwrite_input, check_finite-less in-place solvers
+            kws = e.data.get('kwargs') or {}
+            flags = [k for k, v in kws.items() if str(k).startswith('overwrite') and not (isinstance(v, nf.Const) and v.value is False)]
+            if flags and e.data.get('args'):
+                for o in self.owners(func, e.data['args'][0], loops=p.state.loops):
+                    self._add(s, seen, o, f'{key[4:]}(..., {flags[0]}=True)', e.loc(), 'library routine allowed to overwrite its input',
+                              list(p.conds), f'{key[4:]} with {flags[0]}', func.key)
             return
         if key.startswith('method:'):
             self._rng_method(func, s, p, e, key[7:])
